@@ -28,8 +28,13 @@ func (node *tagWidthratioNode) Execute(ctx *ExecutionContext, writer TemplateWri
 		return err
 	}
 
-	// round to the nearest integer
-	value := int(math.Floor(current.Float()/max.Float()*width.Float() + 0.5))
+	// round to the nearest integer; nothing can be a part of a maximum of 0
+	// (Django: 0 - the division would give +/-Inf or NaN, whose conversion
+	// to int is not defined)
+	value := 0
+	if max.Float() != 0 {
+		value = int(math.Floor(current.Float()/max.Float()*width.Float() + 0.5))
+	}
 
 	if node.ctxName == "" {
 		writer.WriteString(fmt.Sprintf("%d", value))
